@@ -1,4 +1,5 @@
 """C01 — primitive schemas accept exactly the values satisfying type and every check."""
+import os, subprocess
 from . import common as C
 
 MANIFEST = dict(
@@ -7,8 +8,9 @@ MANIFEST = dict(
    note="Trusted: Lean kernel; axioms propext/Classical.choice/Quot.sound at most; harness + comparer. String semantics are byte-level (Go len/HasPrefix/Contains); Trim/ToLower/ToUpper modelled on ASCII only (non-ASCII inputs are only generated for chains without them). Regex/format checks are C20's; float MultipleOf/Finite/Safe are not modelled; bool has no checks and is covered through the foreign-kind rejection only.",
    design="DESIGN.md §5 C01")
 
-MODULES = ["Gozod.Proofs.C01"]
-THEOREMS = ["Gozod.C01." + t for t in ["c01_accept_iff", "c01_result", "c01_foreign_rejected", "c01_num_holds_spec", "c01_enum_iff"]]
+MODULES = ["Gozod.Proofs.C01", "Gozod.Proofs.C01Methods"]
+THEOREMS = ["Gozod.C01." + t for t in ["c01_accept_iff", "c01_result", "c01_foreign_rejected", "c01_num_holds_spec", "c01_enum_iff", "isIntF_eq_spec",
+    "c01_methods_classified", "c01_methods_nonempty", "c01_opaque_methods"]]
 
 def key(op, impl, M, S):
     kind = C.op_body(op).split(" ")[1]
@@ -20,9 +22,46 @@ def key(op, impl, M, S):
 def describe(op):
     return "harness/cmd/c01: str = String()/StringPtr() + checks; num <kind> <ptr-variant> checks (cmp op bound | mul d); enum/literal value sets; input after '|'"
 
+GEN_METHODS = os.path.join(C.LEAN, "Gozod", "Gen", "PrimMethods.lean")
+GEN_CASE = os.path.join(C.LEAN, "Gozod", "Gen", "CaseTable.lean")
+
+def translate(res):
+    """Regenerate Gen/PrimMethods.lean (go/ast over the six primitive types of REPO) and Gen/CaseTable.lean
+    (the toolchain's unicode tables); the files are rewritten only when their content changes."""
+    ok, out = C.build_harness("C01")
+    if not ok:
+        return "harness does not build against the current tree:\n" + out[-3000:]
+    before = [open(f).read() if os.path.exists(f) else "" for f in (GEN_METHODS, GEN_CASE)]
+    rc, out = C.run([C.harness_bin("C01"), "-out", C.BUILD, "-gen-methods", GEN_METHODS, "-gen-casetable", GEN_CASE, "-repo", C.REPO], env=C.goenv(), timeout=600)
+    if rc != 0:
+        return "translator failed (rc=%d): %s" % (rc, out[-2000:])
+    for f, b in zip((GEN_METHODS, GEN_CASE), before):
+        if open(f).read() != b: res.notes.append("%s changed and was rewritten" % os.path.relpath(f, C.VERIF))
+    return ""
+
+def method_offenders():
+    """Which entries of the regenerated method table the expectation does not cover (asks the driver)."""
+    try:
+        p = subprocess.run([C.driver_bin("C01")], input="c01 methods\n", capture_output=True, text=True, timeout=120)
+        return p.stdout.strip()
+    except Exception as e:
+        return "(driver unavailable: %s)" % e
+
 def run(res):
+    with C.Lock("c01-gen"):
+        return _run(res)
+
+def _run(res):
+    err = translate(res)
+    if err:
+        C.tie_broken(res, "translator C01/PrimMethods", err)
+        return res.finish()
     ok, detail = C.prove(res, MODULES, THEOREMS)
     if not ok:
+        C.lake_build(["driver_c01"])
+        if "C01Methods" in detail or "c01_methods" in detail:
+            detail = ("the method table regenerated from the source differs from the expectation in Model/PrimMethodsSpec.lean:\n  "
+                      + method_offenders().replace(" ; ", "\n  ") + "\n\n" + detail)
         C.tie_broken(res, "proof Gozod.Proofs.C01", detail)
     data, err = C.correspond(res, "C01", feed_impl=True)
     if data is None:
